@@ -14,6 +14,16 @@ claimed = {
          "Every pair of version configurations over a universe of 3 (quick) / 4 (thorough) versions including legacy fields on either side, GRPCServer nil/set, per-version protocols, and missing / junk / duplicated version lists; oracle: announced = highest common version else plugin's lowest, both sides use the set registered under it, protocol is that set's, incompatible => Start fails with the incompatible-version error and the plugin is killed. Multi-candidate pairs repeated for map-order variation.",
          "Trusts: reference max(H∩P); the harness's one-line replica of Serve's Printf (bound to a real Serve by C16); map iteration order is sampled by repetition, not controlled.",
          "DESIGN.md §3 C02"),
+ "C03": ("fault_enumeration",
+         "crash-point enumeration by the explorer: 'plugin process dies now' offered as an alternative at every decision point of every explored schedule of a full host session on the real code",
+         "Full session (Start, Client, Dispense, call, held call in a second goroutine, brokered exchange in both directions, Ping, Kill) on net/rpc, gRPC, gRPC+mux; crash at every quiescent state of the canonical schedule plus one further scheduling/timer/select deviation (quick, d=2), two (thorough, d=3); oracle: no panic, every call returns, calls issued after the crash that need the plugin return an error, in-flight calls return within 6 s (14 s brokered), Exited() true and the gRPC client context cancelled.",
+         "Trusts: failure-domain model of a process crash (all its descriptors closed, goroutines stopped); scripted runner; bounded-latency verdicts only without TIME deviation.",
+         "DESIGN.md §3 C03"),
+ "C11": ("model_checking",
+         "exhaustive enumeration of write-size sequences x deviation-bounded schedule exploration of the real stdio sync paths (copyStream / copyChan / StreamStdio / stdio client) under a controlled scheduler",
+         "Write-size sequences around the 1 KiB chunk, 4 KiB bufio and 64 KiB pipe boundaries on both streams with position-dependent binary patterns, x {net/rpc, gRPC, gRPC+mux} x attach before/after, one RPC in flight (1944 cases quick, 48k thorough, default schedule), plus chosen shapes under every schedule with <= 2/3 deviations; oracle: bytes received by SyncStdout / SyncStderr equal the bytes written on that stream, in order, nothing crossed.",
+         "Trusts: pipe model in place of Serve's os.Pipe swap; vnet; library internals not enumerated.",
+         "DESIGN.md §3 C11"),
  "C04": ("model_checking",
          "stateless deviation-bounded exploration of Kill / CleanupClients on the real Client against a scripted plugin process (failure-domain model) under a controlled scheduler and virtual clock",
          "9 plugin shutdown behaviours (exit at once / 1 s / 1.9 s, ignore, frozen, crashed, no handshake, busy, busy+ignore) x {net/rpc, gRPC, gRPC+mux} x {Kill, Kill;Kill, 2 (thorough 3) concurrent Kills, CleanupClients over 3 managed clients in mixed states} under every schedule / timer order / select choice with <= 2 (thorough 3) deviations; oracle: every call returns, the process is gone and Exited() is true afterwards, latency within the grace bound, exits-within-grace plugins are never killed while alive and run their deferred cleanup, ignoring plugins are force-killed, no panic.",
